@@ -115,45 +115,3 @@ Proof.
   eapply (guarded_no_race tr m (fun _ => True)); eauto.
 Qed.
 
-(* ------------------------------------------------------------------------------------------ *)
-(* importedString with every method body under one mutex per string                           *)
-
-Definition single_string (m : imethod) : bool :=
-  match m with IStrictEqImported _ | IConcatImported _ _ => false | _ => true end.
-
-Lemma ev_imethod_all_acc : forall s m seen, forallb is_acc (ev_imethod s m seen) = true.
-Proof. intros s m seen. destruct m, seen; try reflexivity; simpl; destruct oseen; reflexivity. Qed.
-
-Theorem imported_race_free_if_locked : forall (s : N) (ths : list (list event)) (tr : trace),
-  (forall t, t < length ths -> exists m seen, nth t ths [] = ev_imethod_locked s m seen) ->
-  interleaving ths tr -> lock_wf tr -> ~ race tr.
-Proof.
-  intros s ths tr Hth Hil Hwf. apply (all_guarded_no_race tr s Hwf).
-  intros i t k l v Hi.
-  destruct (event_of_thread _ _ _ _ _ Hil Hi) as [Ht _].
-  destruct (Hth t Ht) as (m & seen & Heq).
-  destruct Hil as [_ Hp]. specialize (Hp t Ht). rewrite Heq in Hp. unfold ev_imethod_locked in Hp.
-  eapply locked_holds; [exact Hi|exact Hp|apply ev_imethod_all_acc].
-Qed.
-
-(* non-vacuity: two goroutines, both finding the string unscanned is impossible under the lock; a
-   mutual-exclusion-respecting, value-consistent schedule: the first scans, the second sees scanned *)
-Example locked_schedule_nonvacuous :
-  let ths := [ev_imethod_locked 0 IEnsureThenU false; ev_imethod_locked 0 IEnsureThenU true] in
-  let tr := map (pair 0) (nth 0 ths []) ++ map (pair 1) (nth 1 ths []) in
-  interleaving ths tr /\ lock_wf tr /\ consistent tr.
-Proof.
-  simpl. split; [split|split].
-  - intros t e H. simpl in H. repeat (destruct H as [H|H]; [inversion H; simpl; lia|]). contradiction.
-  - intros t Ht. simpl in Ht. destruct t as [|[|t]]; [reflexivity|reflexivity|lia].
-  - intros a c t t' m Hac Ha Hc.
-    assert (HL : forall x tt mm,
-      nth_error (map (pair 0) (ev_imethod_locked 0 IEnsureThenU false) ++
-                 map (pair 1) (ev_imethod_locked 0 IEnsureThenU true)) x = Some (tt, Lock mm) -> x = 0 \/ x = 8).
-    { intros x tt mm Hx. do 13 (destruct x as [|x]; [simpl in Hx; try discriminate; auto|]). destruct x; discriminate. }
-    destruct (HL _ _ _ Ha) as [->| ->]; destruct (HL _ _ _ Hc) as [->| ->]; try lia.
-    simpl in Ha. inversion Ha; subst. exists 7. split; [lia|reflexivity].
-  - intros i t k l v H Hw Hf.
-    do 13 (destruct i as [|i]; [simpl in H; inversion H; subst; simpl in *; try discriminate; reflexivity|]).
-    destruct i; discriminate.
-Qed.
